@@ -97,3 +97,20 @@ def pick(pool, i):
             break
         k += 1
     return pool[k]
+
+
+def realize_int(k, lo, hi):
+    """Turn a symbolic int known to lie in lo..hi into a concrete one by solver-decided branching."""
+    v = lo
+    while v < hi:
+        if k == v:
+            break
+        v += 1
+    return v
+
+
+def fixlen(b, maxlen):
+    """Rebuild symbolic bytes with a CONCRETE length (content stays symbolic): slices of the result have concrete bounds,
+    which CrossHair 0.0.110 needs for bytes.split/strip on views of symbolic data."""
+    n = realize_int(len(b), 0, maxlen)
+    return bytes([b[i] for i in range(n)])
